@@ -7,7 +7,7 @@
    sources (Gen/ConcatCode.v) is this one (by conversion: renamed locals and other changes that leave
    the term convertible are accepted, a statement that computes something else is not).
    Regenerate with: go run ./go2v -repo /repo -out <dir> concatcode, then copy the definitions. *)
-From Eino Require Import Base.Util Model.ConcatTable Model.Concat Model.ConcatGenLib.
+From Eino Require Import Base.Util Model.ConcatTable Model.Concat Model.ConcatMsg Model.ConcatStream Model.ConcatGenLib.
 
 Section Gen.
 Context {U : UserFn}.
@@ -115,3 +115,139 @@ Definition gen_tc_less (a b : option Z) : option bool :=
   else (oz_cmp Z.ltb a b).
 
 Definition gen_tc_sort_stable : bool := true.
+
+(* ConcatItems[T] (generic in the static chunk type, which the value domain does not carry): its
+   top-level statements as a table (what is tested / bound, what happens).  In model terms:
+   T a map type -> concat_maps (Model/Concat.v concat_items, first branch); T an interface type without a
+   registered function -> concat_items_any; any other T -> concat_typed; an error is handed on; the
+   invalid Value (every chunk nil) and the nil result of a function registered for an interface
+   type (F-C14b) are the zero value of T. *)
+Definition gen_concat_items_shape : list (string * string) :=
+  [ (""%string, "typ:=generic.TypeOf[T]()"%string);
+    (""%string, "v:=reflect.ValueOf(items)"%string);
+    (""%string, "var cv reflect.Value"%string);
+    (""%string, "var err error"%string);
+    ("if typ.Kind()==reflect.Map"%string, "cv,err=concatMaps(v)"%string);
+    ("if typ.Kind()==reflect.Interface&&GetConcatFunc(typ)==nil"%string, "cv,err=concatInterfaces(v)"%string);
+    ("else"%string, "cv,err=concatSliceValue(v)"%string);
+    ("if err!=nil"%string, "var t T; return t,err"%string);
+    ("if !cv.IsValid()"%string, "var t T; return t,nil"%string);
+    ("if cv.Kind()==reflect.Interface&&cv.IsNil()"%string, "var t T; return t,nil"%string);
+    (""%string, "return cv.Interface().(T),nil"%string) ].
+
+(* the stream entry points compose.concatStreamReader[T] (compose/stream_concat.go) and
+   schema.ConcatMessageStream: the drain loop (for { chunk, err := sr.Recv() ... }: io.EOF leaves the loop,
+   another error is returned at once), the empty and the single-chunk case, the call of the concatenation
+   function (a parameter: internal.ConcatItems[T] / ConcatMessages) *)
+Section Stream.
+Variable X : Type.
+Variable zero : X.
+Variable concat_items : list X -> res X.
+
+Definition gen_concatStreamReader (sr : list (sitem X)) : res X :=
+  crun (S := unit) (
+    let items := (@nil X) in
+    cbind (c_loop (S (List.length sr)) (fun '(sr, items) =>
+        let '(chunk, err, sr) := (r_recv zero sr) in
+        if (negb (rerr_is_nil err)) then (if (rerr_is_eof err) then (Next (inr (sr, items)))
+          else let t := zero in
+          Return (r_ret t err))
+        else let items := (items ++ [chunk]) in
+        Next (inl (sr, items)))
+      (sr, items)) (fun '(sr, items) =>
+    if (Nat.eqb (List.length items) 0) then (let t := zero in
+      Return (Err E_EMPTY))
+    else if (Nat.eqb (List.length items) 1) then (cdo (g_nth items 0) (fun x_1 =>
+Return (Ok x_1)))
+    else cdo (concat_items items) (fun res_ =>
+    Return (Ok res_)))).
+
+Definition gen_ConcatMessageStream (s : list (sitem X)) : res X :=
+  crun (S := unit) (
+    let msgs := (@nil X) in
+    cbind (c_loop (S (List.length s)) (fun '(s, msgs) =>
+        let '(msg, err, s) := (r_recv zero s) in
+        if (negb (rerr_is_nil err)) then (if (rerr_is_eof err) then (Next (inr (s, msgs)))
+          else Return (r_ret zero err))
+        else let msgs := (msgs ++ [msg]) in
+        Next (inl (s, msgs)))
+      (s, msgs)) (fun '(s, msgs) =>
+    if (Nat.eqb (List.length msgs) 0) then (Return (Err E_EMPTY))
+    else if (Nat.eqb (List.length msgs) 1) then (cdo (g_nth msgs 0) (fun x_1 =>
+Return (Ok x_1)))
+    else Return (concat_items msgs))).
+
+End Stream.
+
+(* schema.concatToolCalls, statement by statement: the grouping loop (calls without index kept, the
+   positions of the fragments collected per index), the loop over the index map (Go's order: the
+   parameter [ord]) with the first fragment as the base, the three "first non-empty, later ones must
+   agree" fields, the arguments joined, and the stable sort with the comparator gen_tc_less *)
+Section ToolCalls.
+(* the order in which Go visits the index map *)
+Variable ord : list (Z * list nat) -> list (Z * list nat).
+
+Definition gen_concatToolCalls (chunks : list toolcall) : res (list toolcall) :=
+  crun (S := unit) (
+    let merged := (@nil toolcall) in
+    let m := (@nil (Z * list nat)) in
+    cbind (cfold (fun '(merged, m) '(i, chunks_i) =>
+        let index := (tc_idx chunks_i) in
+        cbind (if (negb (is_some index)) then (let merged := (merged ++ [chunks_i]) in
+          Next (merged, m))
+          else (cdo (r_deref index) (fun d_1 =>
+cdo (r_deref index) (fun d_2 =>
+let m := (zm_put d_1 ((zm_get d_2 m) ++ [i]) m) in
+          Next (merged, m))))) (fun '(merged, m) =>
+        Next (merged, m)))
+      (enumerate chunks) (merged, m)) (fun '(merged, m) =>
+    let args := EmptyString in
+    cbind (cfold (fun '(merged, args) '(k, v) =>
+        let index := k in
+        let toolCall := (tc_new (Some index)) in
+        cbind (if (Nat.ltb 0 (List.length v)) then (cdo (g_nth v 0) (fun x_3 =>
+cdo (g_nth chunks x_3) (fun toolCall =>
+          Next toolCall)))
+          else (Next toolCall)) (fun toolCall =>
+        let args := EmptyString in
+        let toolID := EmptyString in
+        let toolType := EmptyString in
+        let toolName := EmptyString in
+        cbind (cfold (fun '(args, toolID, toolType, toolName) n =>
+            cdo (g_nth chunks n) (fun chunk =>
+            cbind (if (negb (String.eqb (tc_id chunk) EmptyString)) then (cbind (if (String.eqb toolID EmptyString) then (let toolID := (tc_id chunk) in
+                Next toolID)
+                else (if (negb (String.eqb toolID (tc_id chunk))) then (Return (Err E_CONFLICT))
+                else Next toolID)) (fun toolID =>
+              Next toolID))
+              else (Next toolID)) (fun toolID =>
+            cbind (if (negb (String.eqb (tc_type chunk) EmptyString)) then (cbind (if (String.eqb toolType EmptyString) then (let toolType := (tc_type chunk) in
+                Next toolType)
+                else (if (negb (String.eqb toolType (tc_type chunk))) then (Return (Err E_CONFLICT))
+                else Next toolType)) (fun toolType =>
+              Next toolType))
+              else (Next toolType)) (fun toolType =>
+            cbind (if (negb (String.eqb (tc_name chunk) EmptyString)) then (cbind (if (String.eqb toolName EmptyString) then (let toolName := (tc_name chunk) in
+                Next toolName)
+                else (if (negb (String.eqb toolName (tc_name chunk))) then (Return (Err E_CONFLICT))
+                else Next toolName)) (fun toolName =>
+              Next toolName))
+              else (Next toolName)) (fun toolName =>
+            cbind (if (negb (String.eqb (tc_args chunk) EmptyString)) then (let args := (args ++ (tc_args chunk))%string in
+              Next args)
+              else (Next args)) (fun args =>
+            Next (args, toolID, toolType, toolName)))))))
+          v (args, toolID, toolType, toolName)) (fun '(args, toolID, toolType, toolName) =>
+        let toolCall := (tc_set_id toolCall toolID) in
+        let toolCall := (tc_set_type toolCall toolType) in
+        let toolCall := (tc_set_name toolCall toolName) in
+        let toolCall := (tc_set_args toolCall args) in
+        let merged := (merged ++ [toolCall]) in
+        Next (merged, args))))
+      (ord m) (merged, args)) (fun '(merged, args) =>
+    cbind (if (Nat.ltb 1 (List.length merged)) then (cdo (r_sort_stable (fun a b => gen_tc_less (tc_idx a) (tc_idx b)) merged) (fun merged =>
+      Next merged))
+      else (Next merged)) (fun merged =>
+    Return (Ok merged))))).
+
+End ToolCalls.
